@@ -43,9 +43,9 @@ type VSA struct {
 	NS  VNStr
 }
 
-type VSK struct { // comparable: usable as map key
-	A int
-	B string
+type VSK struct { // comparable: usable as map key; map keys are written as plain JSON, where omitempty members of zero value are left out
+	A int    `json:"a,omitempty"`
+	B string `json:"b,omitempty"`
 }
 
 type VSB struct {
